@@ -156,6 +156,17 @@ func (g *e6) menu(t reflect.Type, depth int, where string) []reflect.Value {
 			m.SetMapIndex(km[0], em[0])
 			m.SetMapIndex(km[1], em[len(em)-1])
 			out = append(out, m)
+			// one node registered under two keys (schemas share sub-schemas freely): neither entry of the copy may
+			// be the original's node
+			if et.Kind() == reflect.Ptr {
+				shared := em[len(em)-1]
+				if !shared.IsNil() {
+					m2 := reflect.MakeMap(t)
+					m2.SetMapIndex(km[0], shared)
+					m2.SetMapIndex(km[1], shared)
+					out = append(out, m2)
+				}
+			}
 		}
 		return out
 	}
@@ -463,6 +474,9 @@ func C17(tier string) int {
 	type item struct {
 		v    reflect.Value
 		desc string
+		// aliased: the value registers one node in several places on purpose (kept as built: cloning would
+		// separate the places)
+		aliased bool
 	}
 	var items []item
 	for _, rt := range roots {
@@ -486,7 +500,7 @@ func C17(tier string) int {
 			}
 		}
 		for i, v := range vs {
-			items = append(items, item{v, fmt.Sprintf("%s#%d", rt.String(), i)})
+			items = append(items, item{v: v, desc: fmt.Sprintf("%s#%d", rt.String(), i)})
 		}
 	}
 	// constraints as roots: the whole universe (depth 2 in thorough)
@@ -501,7 +515,7 @@ func C17(tier string) int {
 		}
 		iv := reflect.New(tConstraint).Elem()
 		iv.Set(reflect.ValueOf(cv))
-		items = append(items, item{iv, "Constraint " + nc.Name})
+		items = append(items, item{v: iv, desc: "Constraint " + nc.Name})
 	}
 	// constraint structs with every field populated (reflective, future fields included)
 	for _, ct := range []reflect.Type{reflect.TypeOf(schema.AnyExpression{}), reflect.TypeOf(schema.Keyword{}), reflect.TypeOf(schema.List{}),
@@ -516,8 +530,27 @@ func C17(tier string) int {
 			}
 			iv := reflect.New(tConstraint).Elem()
 			iv.Set(sv)
-			items = append(items, item{iv, fmt.Sprintf("%s#%d", ct.String(), i)})
+			items = append(items, item{v: iv, desc: fmt.Sprintf("%s#%d", ct.String(), i)})
 		}
+	}
+	// one node registered in several places (schemas share sub-schemas freely): no place of the copy may hold
+	// the original's node
+	{
+		body := func() *schema.BodySchema {
+			return &schema.BodySchema{Attributes: map[string]*schema.AttributeSchema{"a": {IsOptional: true}}, Blocks: map[string]*schema.BlockSchema{"n": {Body: &schema.BodySchema{}}}}
+		}
+		b1 := body()
+		items = append(items, item{reflect.ValueOf(&schema.BlockSchema{Body: &schema.BodySchema{}, DependentBody: map[schema.SchemaKey]*schema.BodySchema{"k1": b1, "k2": b1}}), "aliased: one dependent body under two keys", true})
+		b2, b3 := body(), body()
+		items = append(items, item{reflect.ValueOf(&schema.BlockSchema{DependentBody: map[schema.SchemaKey]*schema.BodySchema{"k1": b2, "k2": b2, "k3": b3, "k4": b2}}), "aliased: one dependent body under three keys, another under one", true})
+		blk := &schema.BlockSchema{Body: body()}
+		items = append(items, item{reflect.ValueOf(&schema.BodySchema{Blocks: map[string]*schema.BlockSchema{"x": blk, "y": blk}}), "aliased: one block schema under two types", true})
+		at := &schema.AttributeSchema{IsOptional: true, Address: &schema.AttributeAddrSchema{Steps: schema.Address{schema.AttrNameStep{}}}}
+		items = append(items, item{reflect.ValueOf(&schema.BodySchema{Attributes: map[string]*schema.AttributeSchema{"x": at, "y": at}}), "aliased: one attribute schema under two names", true})
+		tb := &schema.Targetable{Address: lang.Address{lang.RootStep{Name: "t"}}, NestedTargetables: schema.Targetables{{Address: lang.Address{lang.RootStep{Name: "t"}, lang.AttrStep{Name: "n"}}}}}
+		items = append(items, item{reflect.ValueOf(&schema.BodySchema{TargetableAs: schema.Targetables{tb, tb}}), "aliased: one targetable listed twice", true})
+		both := body()
+		items = append(items, item{reflect.ValueOf(&schema.BlockSchema{Body: both, DependentBody: map[schema.SchemaKey]*schema.BodySchema{"k": both}}), "aliased: the static body is also a dependent body", true})
 	}
 	if len(g.unpopulable) > 0 {
 		seen := map[string]bool{}
@@ -531,7 +564,10 @@ func C17(tier string) int {
 	}
 	for _, it := range items {
 		l.Count("values", 1)
-		orig := deepClone(it.v)
+		orig := it.v
+		if !it.aliased {
+			orig = deepClone(it.v)
+		}
 		before := run.Canon(orig.Interface())
 		cp, p := callCopy(orig)
 		l.Count("calls", 1)
